@@ -999,10 +999,12 @@ func c03Ctors(c *Ctx) {
 		if ok {
 			p := ps[0]
 			var outer, mk *Event
+			nOuter := 0
 			for i := range p.Events {
 				e := &p.Events[i]
 				if e.Kind == "call" && strings.HasSuffix(e.Name, ".Range") {
 					outer = e
+					nOuter++
 				}
 				if e.Kind == "mkclosure" {
 					mk = e
@@ -1010,6 +1012,8 @@ func c03Ctors(c *Ctx) {
 			}
 			if outer == nil || mk == nil || !isParam(stripIface(outer.Args[0]), 0) {
 				ok, why = false, "does not enumerate a with a closure"
+			} else if nOuter != 1 {
+				ok, why = false, fmt.Sprintf("a is enumerated %d times: every pair is appended more than once", nOuter)
 			} else {
 				cp := c.An.ClosurePaths(mk)
 				if cp.Unproven != "" || len(cp.Paths) != 1 || !cp.Paths[0].Rets[0].IsConst("true") {
@@ -1017,10 +1021,12 @@ func c03Ctors(c *Ctx) {
 				} else {
 					q := cp.Paths[0]
 					var inner, mk2 *Event
+					nInner := 0
 					for i := range q.Events {
 						e := &q.Events[i]
 						if e.Kind == "call" && strings.HasSuffix(e.Name, ".Range") {
 							inner = e
+							nInner++
 						}
 						if e.Kind == "mkclosure" {
 							mk2 = e
@@ -1028,6 +1034,8 @@ func c03Ctors(c *Ctx) {
 					}
 					if inner == nil || mk2 == nil || !isParam(stripIface(inner.Args[0]), 1) {
 						ok, why = false, "the inner enumeration is not over b"
+					} else if nInner != 1 {
+						ok, why = false, fmt.Sprintf("b is enumerated %d times per element of a: every pair is appended more than once", nInner)
 					} else {
 						cp2 := c.An.PathsOf(mk2.SSAFn)
 						if len(cp2.Paths) != 1 || !cp2.Paths[0].Rets[0].IsConst("true") {
